@@ -68,3 +68,95 @@ theorem isOk_iff {α} (o : Outcome α) : o.isOk = true ↔ ∃ a, o = .ok a := b
   cases o <;> simp [isOk]
 
 end TsV.Outcome
+
+namespace TsV.Outcome
+
+/-- no-panic predicate -/
+def NP {α} (o : Outcome α) : Prop := o.isPanic = false
+
+@[simp] theorem np_ok {α} (a : α) : NP (ok a) := rfl
+@[simp] theorem np_pure {α} (a : α) : NP (pure a : Outcome α) := rfl
+@[simp] theorem np_err {α} (e) : NP (err e : Outcome α) := rfl
+
+theorem np_bind {α β} (x : Outcome α) (f : α → Outcome β) (hx : NP x) (hf : ∀ a, NP (f a)) :
+    NP (x.bind f) := by
+  cases x with
+  | ok a => exact hf a
+  | err e => rfl
+  | panic s => simp [NP, isPanic] at hx
+
+theorem np_bind' {α β} (x : Outcome α) (f : α → Outcome β) (hx : NP x) (hf : ∀ a, NP (f a)) :
+    NP (x >>= f) := np_bind x f hx hf
+
+theorem np_ite {α} (c : Prop) [Decidable c] (a b : Outcome α) (ha : NP a) (hb : NP b) :
+    NP (if c then a else b) := by split <;> assumption
+
+theorem mapM'_np {α β} (f : α → Outcome β) (hf : ∀ a, NP (f a)) : ∀ l : List α, NP (mapM' f l)
+  | [] => rfl
+  | a :: as => by
+    have h1 := hf a
+    have h2 := mapM'_np f hf as
+    simp only [mapM']
+    cases ha : f a with
+    | ok b =>
+      cases hl : mapM' f as with
+      | ok bs => rfl
+      | err e => rfl
+      | panic s => rw [hl] at h2; simp [NP, isPanic] at h2
+    | err e => rfl
+    | panic s => rw [ha] at h1; simp [NP, isPanic] at h1
+
+theorem bind_isOk_false {α β} (x : Outcome α) (f : α → Outcome β) (h : x.isOk = false) :
+    (x.bind f).isOk = false := by
+  cases x <;> simp_all [isOk, bind]
+
+theorem bind_isOk_false' {α β} (x : Outcome α) (f : α → Outcome β) (h : x.isOk = false) :
+    (x >>= f).isOk = false := bind_isOk_false x f h
+
+theorem bind_isOk_false_right {α β} (x : Outcome α) (f : α → Outcome β) (h : ∀ a, (f a).isOk = false) :
+    (x >>= f).isOk = false := by
+  cases x with
+  | ok a => exact h a
+  | err e => rfl
+  | panic s => rfl
+
+theorem bind_eq_ok {α β} (x : Outcome α) (f : α → Outcome β) (b : β) :
+    (x >>= f) = ok b ↔ ∃ a, x = ok a ∧ f a = ok b := by
+  cases x with
+  | ok a => exact ⟨fun h => ⟨a, rfl, h⟩, fun ⟨a', h1, h2⟩ => by cases h1; exact h2⟩
+  | err e =>
+    constructor
+    · intro h; cases h
+    · rintro ⟨a', h1, _⟩; cases h1
+  | panic s =>
+    constructor
+    · intro h; cases h
+    · rintro ⟨a', h1, _⟩; cases h1
+
+end TsV.Outcome
+
+namespace TsV.Outcome
+
+/-- a successful `mapM'` maps element-wise: any projection that `f` preserves is preserved list-wise -/
+theorem mapM'_map {α β γ} (f : α → Outcome β) (P : β → γ) (Q : α → γ)
+    (h : ∀ a b, f a = ok b → P b = Q a) : ∀ (l : List α) (r : List β),
+    mapM' f l = ok r → r.map P = l.map Q := by
+  intro l
+  induction l with
+  | nil => intro r hr; simp [mapM'] at hr; subst hr; rfl
+  | cons a t ih =>
+    intro r hr
+    simp only [mapM'] at hr
+    cases hfa : f a with
+    | ok b =>
+      rw [hfa] at hr
+      cases ht : mapM' f t with
+      | ok bs =>
+        rw [ht] at hr; simp at hr; subst hr
+        simp [h a b hfa, ih bs ht]
+      | err e => rw [ht] at hr; simp at hr
+      | panic s => rw [ht] at hr; simp at hr
+    | err e => rw [hfa] at hr; simp at hr
+    | panic s => rw [hfa] at hr; simp at hr
+
+end TsV.Outcome
